@@ -21,6 +21,63 @@ RP = 'elfi.methods.posteriors:RomcPosterior'
 ROMC = 'elfi.methods.inference.romc'
 
 
+def _vector_contains(ctx, co):
+    """The vectorised form of contains(): a single return of
+    [bool(] np.all((limits[:, 0] <= P) & (P <= limits[:, 1])) [)]  (also np.logical_and, or two
+    np.all joined by `and`).  -> (P, return stmt) or None when the function has another shape."""
+    ex = ctx.ex(co)
+    rr = [r for r in returns(co) if r.value is not None]
+    if len(rr) != 1 or any(isinstance(n, (ast.For, ast.While)) for n in own_nodes(co.node)):
+        return None
+    t = ex.term(rr[0].value)
+    if t[0] == 'call' and t[1] in (('global', 'builtins.bool'), ('global', 'bool'),
+                                   ('name', 'bool')) and len(t[2]) == 1:
+        t = t[2][0]
+    parts = None
+    m = match(t, pattern('np.all(_a & _b)')) or match(t, pattern('np.all(np.logical_and(_a, _b))'))
+    if m is not None:
+        parts = (m['a'], m['b'])
+    elif t[0] == 'bool' and t[1] == 'and' and len(t[2]) == 2:
+        ms = [match(x, pattern('np.all(_a)')) for x in t[2]]
+        if all(x is not None for x in ms):
+            parts = (ms[0]['a'], ms[1]['a'])
+    if parts is None:
+        return None
+    lo = hi = None
+    for part in parts:
+        m1 = match(part, pattern('self.limits[:, 0] <= _p'))
+        m2 = match(part, pattern('_p <= self.limits[:, 1]'))
+        if m1 is not None:
+            lo = m1['p']
+        elif m2 is not None:
+            hi = m2['p']
+    if lo is None or hi is None or lo != hi:
+        return None
+    return lo, rr[0]
+
+
+def _check_box_point(ctx, co, p, node):
+    """The point compared with the limits is R^-1 (point - centre) on every path."""
+    alts = p[1] if p[0] == 'phi' else (p,)
+    is_pt = lambda x: x == ('param', co.params[1])
+    is_c = lambda x: x == pattern_term('self.center')
+    uses_inv = all(contains(a, 'np.dot(self.rotation_inv, _)') or
+                   contains(a, 'self.rotation_inv.dot(_)') or
+                   contains(a, 'self.rotation_inv @ _') for a in alts)
+    no_rot = not any(s_ == pattern_term('self.rotation') for a in alts for s_ in subterms(a))
+    ctx.check(uses_inv and no_rot, co, 'world -> box uses the inverse rotation',
+              'np.dot(rotation_inv, ...)',
+              'the query point is transformed with {} instead of the inverse rotation{}'
+              .format('the rotation itself' if not no_rot else 'no rotation',
+                      ' on some path' if len(alts) > 1 else ''), fn=co, node=node)
+    pols = [(_lin_pol(a, is_pt), _lin_pol(a, is_c)) for a in alts]
+    ctx.check(all(pp == POS and pc == NEG for (pp, pc) in pols), co,
+              'centre subtracted in contains', 'R^-1 (point - center)',
+              'the box coordinates depend on the point / the centre with polarities {} '
+              '(expected + / -)'.format(pols), fn=co, node=node)
+
+
+
 @obligation('C19-a', 'T9 T4', 'sample maps box -> world with the rotation, contains maps world -> '
             'box with its inverse', floor=6,
             necessary='a missing inverse or a centre with the wrong sign rejects the region\'s '
@@ -45,6 +102,14 @@ def c19_a(ctx):
               'stored as given', fn=init, node=init.node)
     co = ctx.own_method(bb, 'contains')
     ex = ctx.ex(co)
+    vec = _vector_contains(ctx, co)
+    if vec is not None:
+        _check_box_point(ctx, co, vec[0], vec[1])
+        ctx.ok(co, 'outside iff beyond a limit',
+               'np.all((left <= p) & (p <= right)): inclusive limits, every dimension', fn=co,
+               node=vec[1])
+        _c19_a_sample(ctx, bb)
+        return
     cmps = [n for n in own_nodes(co.node) if isinstance(n, ast.Compare) and
             contains(ex.term(n), 'self.limits[_][_]')]
     if not cmps:
@@ -58,22 +123,7 @@ def c19_a(ctx):
     ctx.check(len(box_pts) == 1, co, 'one transformed point compared', '',
               'the limits are compared with different points', fn=co, node=cmps[0])
     if len(box_pts) == 1:
-        p = next(iter(box_pts))
-        is_pt = lambda x: x == ('param', co.params[1])
-        is_c = lambda x: x == pattern_term('self.center')
-        uses_inv = contains(p, 'np.dot(self.rotation_inv, _)') or \
-            contains(p, 'self.rotation_inv.dot(_)') or contains(p, 'self.rotation_inv @ _')
-        no_rot = not any(s == pattern_term('self.rotation') for s in subterms(p))
-        ctx.check(uses_inv and no_rot, co, 'world -> box uses the inverse rotation',
-                  'np.dot(rotation_inv, ...)',
-                  'the query point is transformed with {} instead of the inverse rotation'
-                  .format('the rotation itself' if not no_rot else 'no rotation'), fn=co,
-                  node=cmps[0])
-        pp, pc = _lin_pol(p, is_pt), _lin_pol(p, is_c)
-        ctx.check(pp == POS and pc == NEG, co, 'centre subtracted in contains',
-                  'R^-1 (point - center)',
-                  'the box coordinates depend on the point with polarity {} and on the centre '
-                  'with polarity {} (expected + / -)'.format(pp, pc), fn=co, node=cmps[0])
+        _check_box_point(ctx, co, next(iter(box_pts)), cmps[0])
     # limits inclusive: outside iff point < left or point > right
     outs = []
     for n in cmps:
@@ -92,6 +142,10 @@ def c19_a(ctx):
               ex.term(n.value) == ('const', False)] if loops else []
     ctx.check(ok and bool(falses), co, 'every dimension tested', 'inside = False when beyond',
               'contains does not test every dimension', fn=co, node=loops[0] if loops else co.node)
+    _c19_a_sample(ctx, bb)
+
+
+def _c19_a_sample(ctx, bb):
     sa = ctx.own_method(bb, 'sample')
     exs = ctx.ex(sa)
     rr = returns(sa)
@@ -841,6 +895,14 @@ def c19_i(ctx):
     falls = [p for (p, lab) in cfg.ret.pred
              if not (p.kind == 'stmt' and isinstance(p.ast, ast.Return))]
     loops = [n for n in own_nodes(co.node) if isinstance(n, ast.For)]
+    vec = _vector_contains(ctx, co)
+    if vec is not None:
+        for role in ('verdict is the conjunction over all dimensions and is returned',
+                     'inside exactly when left <= p and p <= right in every dimension',
+                     'every dimension is tested'):
+            ctx.ok(co, role, 'return np.all((limits[:, 0] <= p) & (p <= limits[:, 1]))', fn=co,
+                   node=vec[1])
+        return
     if len(loops) != 1 or not rr:
         ctx.undecided('membership loop / return of contains not found')
     lo = loops[0]
